@@ -45,9 +45,11 @@ def _mk(pendulum, z, inst, clone=False):
     return obs.utc_dt(pendulum, inst).in_timezone(_tz(pendulum, z, clone))
 
 
-def _flip(pendulum, x):
-    y = pendulum.DateTime(*obs.fields(x), tzinfo=x.tzinfo, fold=1 - x.fold)
-    return y if obs.offset_s(y) == obs.offset_s(x) else None
+def _flip(pendulum, x, z):
+    # inert-ness is decided by the reference model, not by asking the implementation
+    if not isinstance(z, int) and obs.is_repeated_wall(z, obs.fields(x)):
+        return None
+    return pendulum.DateTime(*obs.fields(x), tzinfo=x.tzinfo, fold=1 - x.fold)
 
 
 def _within(got, want):
@@ -81,7 +83,7 @@ def check_pair(acc, pendulum, za, ia, zb, ib, clone_b=False, native=True):
     if za is not None and not clone_b:
         # the same endpoints with the other raw fold flag where it is inert (an unambiguous wall time built by
         # pendulum.datetime() carries fold=1, a converted one fold=0): same instants, same length
-        a2, b2 = _flip(pendulum, a), _flip(pendulum, b)
+        a2, b2 = _flip(pendulum, a, za), _flip(pendulum, b, zb)
         if a2 is not None or b2 is not None:
             a2 = a if a2 is None else a2
             b2 = b if b2 is None else b2
